@@ -378,3 +378,11 @@ func OpaqueReplaceAll(s, old, new string) string { return strings.ReplaceAll(s, 
 //@   modifies processorStack, processor
 //@   ensures[C16] unknown-processor-fails: implies(processorName != "assemble" && processorName != "cmdline", err != nil)
 //@   ensures[C16] bad-cmdline-type-fails: implies(processorName == "cmdline" && args[0] != "unix" && args[0] != "windows", err != nil)
+
+// assemble: scanner protocol (C17); the start pattern has two groups, so procline[2:] has
+// one element (startPreprocessor's precondition).
+//@ contract Operator.assemble
+//@   tags C17 C19 C16
+//@   opt scan-complete C17
+//@   results r err
+//@   modifies processorStack, processor, a.lines, a.groupReplacementStringBuilder
